@@ -149,6 +149,7 @@ package builder
 
 //@ func (*data/builder.shard).serialize
 //@ prop C08 C10 C11
+//@ at call data/builder.sizedStore#1 assert the-block-is-linked-with-the-fixed-prototype: typeis(callee_lp, "cidlink.LinkPrototype") && callee_lp.(cidlink.LinkPrototype) == fileLinkProto
 //@ inst bucket-in-range: k: idx
 //@ ensures any-write-failure-fails-the-build: (err == nil ==> storeFailed == old(storeFailed)) && (old(storeFailed) ==> storeFailed)
 //@ ensures error-implies-nil-link: err != nil ==> result0 == nil
@@ -170,6 +171,14 @@ package builder
 //@ func data/builder.BuildUnixFSShardedDirectory
 //@ prop C08 C10 C15
 //@ at call (hash.Hash).Sum#1 assert key-is-the-hash-of-exactly-this-entrys-name: hinput(h) == name && len(callee_b) == 0
+// ... and the whole digest, paired with that very entry, is what goes into the trie: each entry is
+// appended under the complete hash of its own name (a shortened digest runs out of bits levels
+// early). Stated per iteration, for the entry just appended: that earlier keys are not overwritten
+// afterwards is a frame fact about byte memory the solvers did not establish under a quantifier.
+//@ loop 0 invariant one-trie-entry-per-directory-entry-so-far: len(hamtEntries) == rangeindex + 1
+//@ loop 0 invariant every-trie-entry-so-far-carries-its-own-directory-entry: forall k int :: 0 <= k && k <= rangeindex ==> hamtEntries[k].PBLink == entries[k]
+//@ inst every-trie-entry-so-far-carries-its-own-directory-entry: k: k
+//@ loop 0 invariant the-entry-just-added-is-keyed-by-the-whole-digest-of-its-own-name: rangeindex >= 0 ==> str(hamtEntries[rangeindex].hash) == hashOf(entries[rangeindex].Name.v.x)
 //@ domain permitted-fanout: 8 <= size && size <= 1024
 //@ ensures any-write-failure-fails-the-build: (err == nil ==> storeFailed == old(storeFailed)) && (old(storeFailed) ==> storeFailed)
 //@ ensures error-implies-nil-link: err != nil ==> result0 == nil
@@ -190,7 +199,10 @@ package builder
 // its entries' Tsize, every entry counted (entries that share a target are counted once each).
 //@ spec def tsizeSum(s []github.com/ipld/go-codec-dagpb.PBLink, n int) uint64 = sum(k, 0, n, uint64(s[k].Tsize.v.x))
 //@ func data/builder.BuildUnixFSDirectory
-//@ prop C11
+//@ prop C10 C11
+// The directory block is linked with the package's fixed link prototype (CIDv1, dag-pb, sha2-256):
+// its CID is a function of the block's bytes alone, never of what its entries happen to be hashed with.
+//@ at call data/builder.sizedStore#1 assert the-block-is-linked-with-the-fixed-prototype: typeis(callee_lp, "cidlink.LinkPrototype") && callee_lp.(cidlink.LinkPrototype) == fileLinkProto
 //@ at return ghost builtSize(result0) = result1
 //@ ensures reports-the-size-it-returns: err == nil ==> builtSize(result0) == result1
 //@ loop 0 invariant running-total-counts-every-entry: totalSize == tsizeSum(entries, rangeindex + 1)
